@@ -5,3 +5,4 @@ import OdfProps.C01
 import OdfProps.C02
 import OdfProps.C07
 import OdfProps.C08
+import OdfProps.C17
